@@ -617,6 +617,12 @@ fn candidates(spec: &SchemaSpec) -> Vec<Uid> {
 /// (transitively) permitted types (present or dangling), tags where declared; sometimes the schema's action
 /// entities (identical to their definition) are part of the store
 pub fn gen_store(r: &mut Rng, spec: &SchemaSpec) -> Store {
+    gen_store_with(r, spec, 55)
+}
+
+/// `gen_store` with the probability (percent) that a candidate uid is present; 100 = every uid the generators can
+/// produce (`EIDS` x standard types, all enumerated choices) exists, so no reference is dangling (C18)
+pub fn gen_store_with(r: &mut Rng, spec: &SchemaSpec, present_pct: u32) -> Store {
     let mut order = candidates(spec);
     for i in (1..order.len()).rev() {
         let j = r.below(i + 1);
@@ -624,7 +630,7 @@ pub fn gen_store(r: &mut Rng, spec: &SchemaSpec) -> Store {
     }
     let mut entities = Vec::new();
     for (i, u) in order.iter().enumerate() {
-        if !r.chance(55) {
+        if !r.chance(present_pct) {
             continue;
         }
         let et = spec.etype(&u.0).unwrap();
